@@ -1,5 +1,9 @@
 """C06 — backlog never exceeds capacity; slots are always returned."""
 from contracts.server import UNITS_C06, ASSUMPTIONS
 from contracts.ctors import UNITS_C06_CTORS
-UNITS = list(UNITS_C06) + list(UNITS_C06_CTORS)
+# "every accepted request gives its slot back" is carried, below the server, by "every request put into the pipeline comes out exactly once":
+# the worker loops (one output per input, failures included), the servlet forwarders and the ensemble's collector.
+from contracts.worker import UNITS_SINGLE, UNITS_BATCH
+from contracts.servlet import UNITS_FORWARD, UNITS_DEQUEUE
+UNITS = list(UNITS_C06) + list(UNITS_C06_CTORS) + list(UNITS_SINGLE) + list(UNITS_BATCH) + list(UNITS_FORWARD) + list(UNITS_DEQUEUE)
 SCENARIOS = [('', 'replay/scenarios/c06_backlog_overshoot.py')]
